@@ -2,12 +2,14 @@ package main
 
 import (
 	"bufio"
+	"errors"
 	"bytes"
 	"encoding/json"
 	"fmt"
 	"io"
 	"os"
 	"os/exec"
+	"strconv"
 	"strings"
 	"sync"
 	"sync/atomic"
@@ -55,6 +57,12 @@ func (t *tailBuf) String() string {
 	defer t.mu.Unlock()
 	return string(t.buf)
 }
+
+var errStalled = errors.New("stalled")
+
+// stall is how long a simulated run may go without a single step (function entry of the
+// instrumented library) before it is declared blocked: half the watchdog.
+func (p *Pool) stall() time.Duration { return p.timeout / 2 }
 
 func NewPool(bin string, args []string, env []string, n int, timeout time.Duration) *Pool {
 	return &Pool{bin: bin, args: args, env: env, n: n, timeout: timeout}
@@ -177,8 +185,26 @@ func (p *Pool) runOn(w *workerProc, spec *Spec) (res *Result, ok bool) {
 			ch <- rd{nil, err}
 			return
 		}
+		var lastSteps uint64
+		same := 0
 		for {
 			line, err := w.out.ReadBytes('\n')
+			if bytes.HasPrefix(line, []byte("HB ")) {
+				// heartbeat (one per second of the worker's wall clock): a simulated run whose
+				// step counter does not move any more is blocked
+				st, _ := strconv.ParseUint(strings.TrimSpace(string(line[3:])), 10, 64)
+				if st == lastSteps && st > 0 {
+					same++
+				} else {
+					same = 0
+				}
+				lastSteps = st
+				if time.Duration(same)*time.Second >= p.stall() {
+					ch <- rd{nil, errStalled}
+					return
+				}
+				continue
+			}
 			if bytes.HasPrefix(line, []byte("RESULT ")) {
 				var r Result
 				if jerr := json.Unmarshal(line[7:], &r); jerr != nil {
@@ -203,6 +229,15 @@ func (p *Pool) runOn(w *workerProc, spec *Spec) (res *Result, ok bool) {
 		if r.err == nil {
 			r.res.WallMs = float64(time.Since(start).Microseconds()) / 1000
 			return r.res, true
+		}
+		if r.err == errStalled {
+			atomic.AddInt64(&p.Deaths, 1)
+			w.cmd.Process.Signal(os.Interrupt)
+			w.kill()
+			out := &Result{ID: spec.ID, Fatal: fmt.Sprintf("stalled: no simulated step for %v (blocked outside the simulator's seams)", p.stall()), FatalClass: "timeout"}
+			out.Stderr = clip(w.stderr.String(), 4000)
+			out.WallMs = float64(time.Since(start).Microseconds()) / 1000
+			return out, false
 		}
 		// process died
 		atomic.AddInt64(&p.Deaths, 1)
